@@ -176,3 +176,5 @@ def run(P, R, tier):
                     c = cone(du, v, du.stmt_of(st2), interproc=False)
                     means_of = any(a.endswith(".means") for a in c.attrs)
     R.check(means_of, "NORM.models", KEY, f"{models} <- [m.means for m in {models}]", "", "machines given as models are not reduced to their means")
+    from ..engines import dtype as _dt
+    _dt.check_function(P, R, KEY, raw_attrs=("n", "sum_px", "sum_pxx"))
